@@ -430,6 +430,7 @@ class Expander:
                     if isinstance(n, ast.Name) and not (bound and n.id == elem_t.id):
                         self.loopvars.add(n.id)
                 self.exec_block(st.body, env)
+                self.exec_block(st.orelse, env)       # for .. else: the else suite runs after the loop (no `break` in the generic iteration)
                 return
             if callable(choice):
                 choice(self, st, env)
@@ -441,7 +442,15 @@ class Expander:
             self.on_while(self, st, env)
             return
         if isinstance(st, ast.Try):
+            # the normal path: body, then `else`, then `finally`; what a handler may write is no longer the value the algebra holds
             self.exec_block(st.body, env)
+            self.exec_block(st.orelse, env)
+            for h_ in st.handlers:
+                for b_ in h_.body:
+                    for name in _written_names(b_):
+                        if name in env and not isinstance(env[name], PoisonV):
+                            env[name] = PoisonV(f"`{name}` may be re-bound by the exception handler at line {h_.lineno}")
+            self.exec_block(st.finalbody, env)
             return
         if isinstance(st, ast.With):
             self.exec_block(st.body, env)
